@@ -280,6 +280,8 @@ type peer struct {
 	taken  int
 	closed bool // the reader saw the end of the connection, or the peer hung up itself
 
+	stalled int32 // the peer has stopped reading (atomic)
+
 	stage  byte      // ground truth from what this peer sent: f h v x
 	lastHs time.Time // when the node's handshake timer was last restarted
 	onStop int64
@@ -287,6 +289,9 @@ type peer struct {
 
 func (p *peer) reader() {
 	for {
+		for atomic.LoadInt32(&p.stalled) == 1 && !p.isClosed() {
+			time.Sleep(time.Millisecond)
+		}
 		hdr := make([]byte, 24)
 		if _, err := io.ReadFull(p.conn, hdr); err != nil {
 			break
@@ -633,6 +638,13 @@ func errClass(err error) string {
 	return "other"
 }
 
+func minInt64(a, b int64) int64 {
+	if a < b {
+		return a
+	}
+	return b
+}
+
 func (w *world) peerOf(a hx.Args) *peer {
 	k, ok := a.Uint("i")
 	if !ok || int(k) >= len(w.peers) {
@@ -862,6 +874,67 @@ func (w *world) step(op string) string {
 		}
 		p.stage = 'x'
 		res = "ok run=" + w.waitRun(p)
+		p.mu.Lock()
+		p.closed = true
+		p.mu.Unlock()
+	case "stallstop":
+		// a peer that stops reading and floods pings: the pongs fill the node's outgoing queue (1000) and the next
+		// sender parks on it — here NodeManager.SendTx, outside any recover. Then the node is stopped. A sender
+		// parked on the queue must be released, not hit by the close of the queue.
+		p := w.peerOf(a)
+		n, _ := a.Uint("n")
+		if p == nil || p.stage != 'v' || p.isClosed() || n < 1000 || n > 5000 {
+			break
+		}
+		atomic.StoreInt32(&p.stalled, 1)
+		var wrote int64
+		floodDone := make(chan struct{})
+		go func() {
+			defer close(floodDone)
+			for i := uint64(0); i < n; i++ {
+				p.conn.SetWriteDeadline(time.Now().Add(30 * time.Second))
+				if _, err := p.conn.Write(frame("ping", le64(900000+i))); err != nil {
+					return
+				}
+				atomic.AddInt64(&wrote, 1)
+			}
+		}()
+		// until the flood makes no progress any more (the node's read loop is parked behind its full queue)
+		last, idle := int64(-1), time.Duration(0)
+		until(20*time.Second, func() bool {
+			cur := atomic.LoadInt64(&wrote)
+			if cur != last {
+				last, idle = cur, 0
+				return false
+			}
+			idle += time.Millisecond
+			return idle >= 60*time.Millisecond || cur == int64(n)
+		})
+		tx := wire.NewMsgTx(1)
+		tx.AddTxOut(wire.NewTxOut(0, bitcoin.Script([]byte{0x00, 0x6a, 0x01, 0x43})))
+		sendRes := make(chan string, 1)
+		go func() {
+			defer func() {
+				if r := recover(); r != nil {
+					sendRes <- "panic"
+				}
+			}()
+			w.mgr.SendTx(w.ctx, tx)
+			sendRes <- "ok"
+		}()
+		until(60*time.Millisecond, func() bool { return len(sendRes) > 0 })
+		p.node.Stop(w.ctx)
+		p.stage = 'x'
+		st := "hung"
+		if until(routeWait, func() bool { return len(sendRes) > 0 }) {
+			st = <-sendRes
+		} else {
+			w.hung = true
+		}
+		p.conn.Close()
+		<-floodDone
+		res = fmt.Sprintf("wrote=%d sendtx=%s run=%s", minInt64(atomic.LoadInt64(&wrote), 1001), st, w.waitRun(p))
+		atomic.StoreInt32(&p.stalled, 0)
 		p.mu.Lock()
 		p.closed = true
 		p.mu.Unlock()
